@@ -73,6 +73,10 @@ def open_reader(c, path, which):
     cls = _cls(FORMATS[c['fmt']][2 if which == 'memmap' else 3])
     if c.get('noshape'):
         return cls(path)            # rows and columns left to the reader (one row or one column of all cells)
+    if c.get('partial') == 'rows':
+        return cls(path, c['ny'], None)     # the other count is inferred from the record size
+    if c.get('partial') == 'cols':
+        return cls(path, None, c['nx'])
     return cls(path, c['ny'], c['nx'])
 
 
